@@ -232,6 +232,29 @@ def run(res, a):
             res.known_finding("c05_mov_literal_dynamical_matching 'mov r0, 200' with dynamical matching enabled (the default of cmd/basm): %s" % what)
         else:
             viol.append(("'mov r0, 200' is not assembled to code that loads 200 when dynamical matching is enabled: %s" % what, {"source": {"text": probe, "nodyn": False}}))
+    # data sections (outside the Coq model): a name of a .romdata section denotes the ROM address of its first word, the words lie
+    # behind the program in declaration order, 'mov r, rom:name' loads the address and 'mov r, rom:[r]' the word at an address
+    dreqs, dmeta = [], []
+    for _ in range(6 if a.tier == "quick" else 60):
+        pre = ["  rset r2, %d" % rnd.randrange(8) for _ in range(rnd.randint(0, 4))]
+        names = rnd.sample(["alpha", "beta", "gamma", "delta"], rnd.randint(2, 4))
+        vars_ = [(nm, rnd.randint(1, 3), rnd.randrange(1, 250)) for nm in names]
+        pick = rnd.randrange(len(vars_))
+        text = ("%section code .romtext iomode:async\n  entry _start\n_start:\n" + "".join(l + "\n" for l in pre) +
+                "  mov r1, rom:%s\n  mov r0, rom:[r1]\n  mov o0, r0\nhalt:\n  j halt\n%%endsection\n" % vars_[pick][0] +
+                "%section consts .romdata\n" + "".join("  %s %sdb %s\n" % (nm, ("%d:" % rep) if rep > 1 else "", hex(v)) for nm, rep, v in vars_) + "%endsection\n"
+                "%meta cpdef cpu romcode:code, romdata:consts, ramsize:0\n%meta iodef x type:io\n"
+                "%meta ioatt x cp:cpu, type:output, index:0\n%meta ioatt x cp:bm, type:output, index:0\n%meta bmdef global registersize:8\n")
+        dreqs.append({"bm": {"basm": text, "nodyn": True}, "env": [{"in": [], "outrecv": [-1]}] * 16, "ticks": 16, "dump": "ext"})
+        dmeta.append((text, vars_[pick][0], vars_[pick][2]))
+    for (text, nm, val), r in zip(dmeta, simlib.run_sims(dreqs)):
+        res.count_case(text, nontrivial=True)
+        if r.get("err"):
+            viol.append(("the assembler rejects a source with a data section: %s" % r["err"], {"source": {"text": text, "nodyn": True}}))
+        elif r["ticks"][-1]["out"] != [val]:
+            viol.append(("the program loads the ROM word named %s (%d) and writes it to o0; the simulated machine ends with o0 = %s"
+                         % (nm, val, r["ticks"][-1]["out"]), {"source": {"text": text, "nodyn": True}}))
+    hist["data_section_sources"] = len(dreqs)
     cov = res.coverage
     cov["rule"] = ("generated BASM sources: 1-3 processors, 3-12 instructions each over explicit opcodes and the four mov forms, 1-4 labels with forward "
                    "and backward j/jz, the entry directive first or elsewhere, sync or async iomode, register size 8/16/32, processors wired by ioatt "
